@@ -11,7 +11,7 @@ KnownUnits(r) == \A i \in 1..Len(r.results) : \A j \in 1..Len(r.results[i].u) : 
 Check(r) ==
   IF r.lib_panic # "" \/ r.lib_parse_error # "" THEN <<>>        \* nothing computed: C11's subject
   ELSE IF ~KnownUnits(r) THEN <<"unknown-unit">>
-  ELSE LET m == Matches(r.stdout, r.results, IF r.mode = "describe" THEN r.descs ELSE <<>>, r.mode = "exact") IN
+  ELSE LET m == Matches(r.stdout, r.results, IF r.mode \in {"describe", "describe_after"} THEN r.descs ELSE <<>>, r.mode = "exact") IN
        (IF m # "" THEN <<m>> ELSE <<>>) \o (IF r.exit # 0 THEN <<"exit-status">> ELSE <<>>)
 VARIABLES l
 Init == l = 1
